@@ -7,7 +7,7 @@
 From Coq Require Import List ZArith Bool.
 From LV Require Import Gen.Consts_C03 Gen.Funs_C03 Region.RegionDefs
      Wire.CountsModel Wire.CountsProofs Wire.CapsModel Wire.UpdateModel Wire.CapsProofs
-     Wire.S2CModel Wire.S2CProofs.
+     Wire.S2CModel Wire.S2CProofs Region.RegionProofs Wire.InsideProofs.
 Import ListNotations.
 Local Open Scope Z_scope.
 
@@ -132,6 +132,24 @@ Example C03_update_count_nonvacuous :
   emitted_len (emit_region enc_CoRRE false 48 48 [(0, 0, 100, 50); (0, 50, 10, 10)]) = Some 7.
 Proof. split; reflexivity. Qed.
 
+(* The count stage with the proposed repair of F5 (notes/fix_C03_5.diff; used by the model when
+   props/C03.py finds the repair in the source): the FULL statement -- no hypothesis about 65535 any
+   more, only that the copy rectangles plus the splitting of ONE bounding box stay below the field size *)
+Theorem C03_update_count_fixed : forall pref lastrect cmw cmh maxrects region ncopy npseudo n region' lm,
+  1 <= cmw -> 1 <= cmh -> Forall nondeg region -> region <> [] -> 0 <= ncopy -> 0 <= npseudo <= 6 ->
+  (forall kb, emitted_len (emit_region pref lastrect cmw cmh [bbox_of region]) = Some kb -> ncopy + kb + 6 < 65535) ->
+  announce_fixed pref lastrect cmw cmh maxrects region ncopy npseudo = Some (n, region', lm) ->
+  (lm = true -> n = 65535 /\ lastrect = true /\ is_tight_class pref = true) /\
+  (lm = false -> exists k, emitted_len (emit_region pref lastrect cmw cmh region') = Some k /\
+                           n = ncopy + k + npseudo /\ n < 65535).
+Proof. exact update_count_fixed. Qed.
+
+Example C03_update_count_fixed_nonvacuous :
+  (exists r', announce_fixed enc_Raw false 48 48 0 (repeat (0, 0, 1, 1) (Z.to_nat 300)) 65400 0 = Some (65401, r', false)) /\
+  announce_fixed enc_Tight true 48 48 50 [(0, 0, 64, 64)] 0 0 = Some (65535, [(0, 0, 64, 64)], true) /\
+  announce_fixed enc_CoRRE false 48 48 50 [(0, 0, 100, 50); (0, 50, 10, 10)] 2 1 = Some (10, [(0, 0, 100, 50); (0, 50, 10, 10)], false).
+Proof. exact announce_fixed_examples. Qed.
+
 (* LastRect-terminated updates: only for a Tight client that enabled LastRect -- or by the
    collision of an exact count of 65535 with the sentinel (F5) *)
 Theorem C03_lastrect_mode_partial :
@@ -156,6 +174,41 @@ Theorem C03_rects_inside_region : forall pref lastrect cmw cmh region, 1 <= cmw 
                       | EmTrap => False end)
           region (emit_region pref lastrect cmw cmh region).
 Proof. exact emit_region_inside. Qed.
+
+(* ---- C03_rects_inside (unscaled client): with the set semantics of the region mirror (C11) ----
+   requestedRegion, built from any history of 16-bit requests, is well formed and inside the screen; *)
+Theorem C03_requested_inside : forall W H qs, Forall r16q qs ->
+  WF (fold_left (add_request W H) qs rgn_empty) /\ within W H (fold_left (add_request W H) qs rgn_empty).
+Proof. exact requested_within. Qed.
+
+(* then, for well-formed client regions, every rectangle of the region stage of
+   rfbSendFramebufferUpdate (incl. the cursor area added for clients without cursor-shape updates)
+   is non-degenerate and inside the screen, and so are the copy rectangles AND their sources; *)
+Theorem C03_rects_inside : forall c1 s sn,
+  1 <= sn_fbw sn -> 1 <= sn_fbh sn ->
+  WF (sn_mod sn) -> WF (sn_req sn) -> WF (sn_copy sn) -> within (sn_fbw sn) (sn_fbh sn) (sn_req sn) ->
+  Forall (rect_in_screen (sn_fbw sn) (sn_fbh sn)) (pl_region (plan_regions c1 s sn)) /\
+  Forall (copy_in_screen (sn_fbw sn) (sn_fbh sn) (sn_dx sn) (sn_dy sn)) (pl_copy (plan_regions c1 s sn)).
+Proof. exact plan_inside. Qed.
+
+(* and every header the splitting loops emit for it (after the optional bounding-box coalescing) lies
+   inside the screen, for every encoding.  (What is NOT implied: that the screen size is the size
+   last announced to a client without NewFBSize -- finding F22.) *)
+Theorem C03_rects_inside_emitted : forall pref lastrect cmw cmh maxrects region ncopy npseudo n region' lm W H,
+  1 <= cmw -> 1 <= cmh -> Forall (rect_in_screen W H) region ->
+  announce pref lastrect cmw cmh maxrects region ncopy npseudo = Some (n, region', lm) ->
+  Forall (rect_in_screen W H) region' /\
+  Forall (fun e => match e with
+                   | EmKnown l => Forall (rect_in_screen W H) l
+                   | EmData r => rect_in_screen W H r
+                   | EmTrap => False end)
+         (emit_region pref lastrect cmw cmh region').
+Proof. exact emitted_inside_screen. Qed.
+
+Example C03_rects_inside_nonvacuous :
+  let req := fold_left (add_request 20 10) [(3, 3, 0, 4); (15, 5, 100, 100); (0, 0, 4, 4)] rgn_empty in
+  rgn_iter false false req = [(0, 0, 4, 4); (15, 5, 20, 10)].
+Proof. reflexivity. Qed.
 
 (* ---- refutations: the faithful model violates the full statement; each witness is replayed on
    the real library by props/C03.py (findings F4, F4b, F5, F6) ---- *)
@@ -216,7 +269,7 @@ Theorem C03_caps_state : forall g latest c, reach g latest c -> pref_ok c /\ fla
 Proof. exact reach_ok. Qed.
 
 Example C03_caps_state_nonvacuous :
-  let g := mkCfg false true true true false in
+  let g := mkCfg false true true true false false false in
   let c1 := fst (set_encodings g caps_init [enc_Tight; enc_LastRect; enc_RichCursor; enc_PointerPos]) in
   let c2 := fst (set_encodings g c1 [enc_NewFBSize; 12345]) in
   reach g [enc_NewFBSize; 12345] c2 /\
@@ -239,8 +292,8 @@ Theorem C03_caps_cursorpos : forall g c l,
 Proof. exact set_encodings_cursorpos_needs_shape. Qed.
 
 Example C03_caps_cursorpos_nonvacuous :
-  c_cursorpos (fst (set_encodings (mkCfg false false false false false) caps_init [enc_PointerPos])) = false /\
-  c_cursorpos (fst (set_encodings (mkCfg false false false false false) caps_init [enc_PointerPos; enc_XCursor])) = true.
+  c_cursorpos (fst (set_encodings (mkCfg false false false false false false false) caps_init [enc_PointerPos])) = false /\
+  c_cursorpos (fst (set_encodings (mkCfg false false false false false false false) caps_init [enc_PointerPos; enc_XCursor])) = true.
 Proof. split; reflexivity. Qed.
 
 (* F21 (repaired in /repo by 2d15d75): SetEncodings now resets enableExtendedClipboard with the other
@@ -251,7 +304,7 @@ Theorem C03_caps_extclip : forall g c l, g_reset_extclip g = true ->
 Proof. exact set_encodings_extclip. Qed.
 
 Example C03_caps_extclip_nonvacuous :
-  let g := mkCfg false false true false true in
+  let g := mkCfg false false true false true false false in
   c_extclip (fst (set_encodings g caps_init [enc_ExtendedClipboard])) = true /\
   c_extclip (fst (set_encodings g (fst (set_encodings g caps_init [enc_ExtendedClipboard])) [enc_Raw])) = false.
 Proof. split; reflexivity. Qed.
@@ -260,8 +313,8 @@ Proof. split; reflexivity. Qed.
 Theorem C03_caps_extclip_refuted :
   exists g c l, c_extclip (fst (set_encodings g c l)) = true /\ ~ In enc_ExtendedClipboard l.
 Proof.
-  exists (mkCfg false false true false false),
-         (fst (set_encodings (mkCfg false false true false false) caps_init [enc_ExtendedClipboard])), [enc_Raw].
+  exists (mkCfg false false true false false false false),
+         (fst (set_encodings (mkCfg false false true false false false false) caps_init [enc_ExtendedClipboard])), [enc_Raw].
   split; [reflexivity|]. intros [H|[]]. discriminate.
 Qed.
 
@@ -307,6 +360,24 @@ Example C03_parse_print_nonvacuous :
   parse_stream ex_state (print_fbu 0 ex_rects) =
     ([MFbu 3 [(3, 4, 0, 0, enc_PointerPos); (1, 1, 2, 2, enc_CopyRect); (0, 0, 2, 1, enc_Raw)] false], ex_state, SeClean).
 Proof. exact (conj ex_rects_wf ex_rects_parse). Qed.
+
+(* Hextile (any tile list that follows the 16x16 grid walk: raw tiles, background / foreground,
+   plain and coloured subrectangles) and Tight / TightPng (fill, JPEG, PNG, the four basic-compression
+   streams with copy / palette / gradient filter, verbatim data below 12 bytes, compact lengths, the
+   TurboVNC NoZlib form) are constructors W_hextile / W_tight of [wf_rect], so C03_parse_print_rect and
+   C03_parse_print cover ALL encodings.  The compact length (1..3 bytes, 7+7+8 bits): *)
+Theorem C03_compact_length : forall n rest, 0 <= n < 4194304 -> compact_len (pcompact n ++ rest) = POk n rest.
+Proof. exact compact_print. Qed.
+
+Example C03_compact_length_nonvacuous :
+  pcompact 127 = [127] /\ pcompact 128 = [128; 1] /\ pcompact 16383 = [255; 127] /\ pcompact 16384 = [128; 128; 1] /\
+  pcompact 4194303 = [255; 255; 255].
+Proof. exact compact_examples. Qed.
+
+Example C03_parse_print_hextile_tight_nonvacuous :
+  wf_rects ex2_state ex2_rects ex2_state /\
+  parse_stream ex2_state (print_fbu 0 ex2_rects) = ([MFbu 5 (map fst ex2_rects) false], ex2_state, SeClean).
+Proof. exact (conj ex2_rects_wf ex2_rects_parse). Qed.
 
 (* ---- C03_serverinit: width, height, pixel format and the name truncated to 127 bytes ---- *)
 Theorem C03_serverinit : forall sc rest,
